@@ -12,8 +12,11 @@ CONSTANTS D, W,            \* depth / width of the exhaustively enumerated shape
           Part,            \* which cases: "all", "lift", "deep", "lib", "zip", "pairs", "wide"
           Materialise      \* mechanism model: TRUE = companions materialised per level, FALSE = today's generators
 
-VARIABLES desc, case, done      \* desc: the small description of a case; case: the case itself, built by Eval
-vars == <<desc, case, done>>
+VARIABLES desc,      \* the small description of a case
+          case,      \* the case itself, built by Eval
+          res,       \* what the specification says the call returns: [law, deep] structures for lift/lib cases
+          done
+vars == <<desc, case, res, done>>
 
 RECURSIVE Swap(_)
 Swap(s) == IF s[1] = "o" THEN s
@@ -101,7 +104,9 @@ CaseOf(d) ==
       [] d.k = "lib"  -> [k |-> "lib", fn |-> d.fn, x |-> Build(d.s, d.menu, d.rot, 0), cs |-> d.cs]
       [] OTHER        -> d
 
-Descs == CASE Part = "lift"  -> LiftCases(0)
+\* (an operator with a dummy parameter on purpose: TLC evaluates an expensive zero-arity constant
+\*  definition eagerly and once per worker, which made the 16-worker run 12 times slower than 1 worker)
+Descs(u) == CASE Part = "lift"  -> LiftCases(0)
            [] Part = "deep"  -> DeepCases(0)
            [] Part = "lib"   -> LibCases(0)
            [] Part = "zip"   -> ZipCases(0) \cup NormCases(0)
@@ -109,18 +114,25 @@ Descs == CASE Part = "lift"  -> LiftCases(0)
            [] Part = "wide"  -> LiftOn(Shapes(D, W) \ Shapes(2, 2), FALSE)
            [] Part = "all"   -> LiftCases(0) \cup DeepCases(0) \cup LibCases(0) \cup ZipCases(0) \cup NormCases(0)
 
-Init == desc \in Descs /\ case = None /\ done = FALSE
-Eval == done = FALSE /\ done' = TRUE /\ case' = CaseOf(desc) /\ UNCHANGED desc
+ResOf(c) == IF c.k \in {"lift", "lib"} THEN [law |-> Lift(c.fn, c.x, c.cs, FALSE), deep |-> Lift(c.fn, c.x, c.cs, TRUE)] ELSE None
+OutcomeOf(r) == IF HasExc(r) THEN Raises("ValueError") ELSE r          \* = Outcome(..) of Lift.tla
+Want == {OutcomeOf(res.law), OutcomeOf(res.deep)}                      \* = Outcomes(case.fn, case.x, case.cs)
+
+Init == desc \in Descs(0) /\ case = None /\ res = None /\ done = FALSE
+Eval == /\ done = FALSE /\ done' = TRUE
+        /\ case' = CaseOf(desc)
+        /\ res' = ResOf(case')
+        /\ UNCHANGED desc
 
 AllSeqs(args) == \A j \in 1..Len(args) : IsSeq(args[j])
-Emit(c) ==
+Emit(c, r) ==
     CASE c.k \in {"lift", "lib"} ->
-            [k |-> c.k, fn |-> c.fn, x |-> c.x, cs |-> c.cs, want |-> SetToSeq(Outcomes(c.fn, c.x, c.cs)),
-             exh |-> GeneratorExhaustion(c.x, 1), deep |-> Cardinality(Outcomes(c.fn, c.x, c.cs)) > 1]
+            [k |-> c.k, fn |-> c.fn, x |-> c.x, cs |-> c.cs, want |-> SetToSeq({OutcomeOf(r.law), OutcomeOf(r.deep)}),
+             exh |-> GeneratorExhaustion(c.x, 1), deep |-> r.law # r.deep]
       [] c.k = "zip"  -> [k |-> "zip", args |-> c.args, want |-> Zipper(c.args),
                           lens |-> IF AllSeqs(c.args) THEN <<Lens(c.args)>> ELSE <<>>]
       [] c.k = "norm" -> [k |-> "norm", x |-> c.x, aslist |-> AsList(c.x), astuple |-> AsTuple(c.x), corner |-> StarArgsCorner(c.x)]
-EvalGen == Eval /\ PrintT(ToJson(Emit(case')))
+EvalGen == Eval /\ PrintT(ToJson(Emit(case', res')))
 
 \* ---------------------------------------------------------------------------------------------
 \* Clauses
@@ -146,26 +158,24 @@ Congruent(x, c) ==
     ELSE IF IsMap(x) THEN IsMap(c) /\ KeySet(c) = KeySet(x) /\ \A i \in 1..Width(x) : Congruent(Pay(x)[i][2], Pay(c)[i][2])
     ELSE ~IsCont(c)
 
-ShapePreserved == IsL => \A deep \in BOOLEAN : SameShape(case.x, Lift(case.fn, case.x, case.cs, deep))
+ResIsLift == IsL => res.law = Lift(case.fn, case.x, case.cs, FALSE) /\ Want = Outcomes(case.fn, case.x, case.cs)
+ShapePreserved == IsL => SameShape(case.x, res.law) /\ SameShape(case.x, res.deep)
 LeafWise == IsL => \A deep \in BOOLEAN :
-                LET r == Lift(case.fn, case.x, case.cs, deep) IN
+                LET r == IF deep THEN res.deep ELSE res.law IN
                 \A p \in Paths(case.x) :
                     At(r, p) = Apply(case.fn, At(case.x, p), [j \in 1..Len(case.cs) |-> CompAt(case.cs[j], case.x, p, deep)])
 ScalarsBroadcast == (IsL /\ \A j \in 1..Len(case.cs) : ~IsCont(case.cs[j])) =>
-                        LET r == Lift(case.fn, case.x, case.cs, FALSE) IN
-                        \A p \in Paths(case.x) : At(r, p) = Apply(case.fn, At(case.x, p), case.cs)
+                        \A p \in Paths(case.x) : At(res.law, p) = Apply(case.fn, At(case.x, p), case.cs)
 SameShapeMatches == IsL => \A j \in 1..Len(case.cs) : Congruent(case.x, case.cs[j]) =>
                         \A deep \in BOOLEAN : \A p \in Paths(case.x) : CompAt(case.cs[j], case.x, p, deep) = At(case.cs[j], p)
-DeepMatchConfined == (IsL /\ \A j \in 1..Len(case.cs) : ~IsCont(case.cs[j]) \/ Congruent(case.x, case.cs[j])) =>
-                        Cardinality(Outcomes(case.fn, case.x, case.cs)) = 1
+DeepMatchConfined == (IsL /\ \A j \in 1..Len(case.cs) : ~IsCont(case.cs[j]) \/ Congruent(case.x, case.cs[j])) => res.law = res.deep
 \* positional = keyword: the mechanism, for every split of the companions into positional and
 \* keyword ones, gives an outcome of the law - and the same one
 PosEqKw == (done /\ case.k = "lift") =>
-               LET want == Outcomes("f", case.x, case.cs)
-                   allkw == Mech(case.x, <<>>, case.cs, Materialise) IN
-               \A n \in 0..Len(case.cs) :
-                   LET r == Mech(case.x, SubSeq(case.cs, 1, n), SubSeq(case.cs, n + 1, Len(case.cs)), Materialise)
-                   IN  r \in want /\ r = allkw
+               LET allkw == Mech(case.x, <<>>, case.cs, Materialise) IN
+               /\ allkw \in Want
+               /\ \A n \in 1..Len(case.cs) :
+                     Mech(case.x, SubSeq(case.cs, 1, n), SubSeq(case.cs, n + 1, Len(case.cs)), Materialise) = allkw
 
 IsZ == done /\ case.k = "zip"
 ZipRaises == IsZ => (IsExc(Zipper(case.args)) <=>
